@@ -131,7 +131,8 @@ RetFails(c) ==
            THEN (IF Positions(c) # Positions(call.entry)
                  THEN {F("C11", <<"legal single-row placement moved">>, C11Signature(params))}
                  ELSE {F("note", <<"C11 antecedent held">>, "c11-antecedent")})
-           ELSE {})
+           ELSE {}) \cup
+          (IF TrivialFit(call.entry) THEN {F("note", <<"success was trivial and legalization returned">>, "c01-trivial-antecedent")} ELSE {})
      ELSE {}) \cup
     (IF st = "detailed"
      THEN LegalFails("C02", c) \cup OrientFails(call.entry, c) \cup
